@@ -107,7 +107,7 @@ def C09_2(ctx, facts):
                   "accept step error derives from %s" % sorted({norm(r.site.name) for r in rr if r.kind == "call"}), po.where(b))
     ctx.floor("Serving::poll_once|err-sites", n, 3, "error returns in poll_once")
     for key in (("server::Serving", "Future", "poll"), ("server::GracefulShutdown", "Future", "poll")):
-        f = facts.method(*key)
+        f = facts.unit(facts.method(*key))
         ctx.touched(f)
         es = err_sources(f)
         ctx.floor("%s|err-sites" % key[0].split("::")[-1], len(es), 1, "error returns")
